@@ -24,6 +24,10 @@ Proof. vm_compute. reflexivity. Qed.
 Lemma gen_no_inplace_builders : inplace_builder_calls = [].
 Proof. reflexivity. Qed.
 
+(** every engine's reader/writer names its temporary views and tables freshly per call *)
+Lemma gen_temp_names_fresh : temp_names_ok temp_object_names = true.
+Proof. vm_compute. reflexivity. Qed.
+
 Lemma gen_names_by_content : hash_over_rendered_text = true /\ singleton_session = true /\ counter_start = counter st0.
 Proof. repeat split. Qed.
 
